@@ -128,6 +128,21 @@ class GateDirective:
         return await next_directive(parent_node, argument_definition_node, argument_node, value, ctx)
 
 
+class CtxDirective:
+    """@vtctx on input fields / arguments: the coerced value depends on the REQUEST context (C15: nothing coerced for one
+    request may be served to another)."""
+
+    async def on_post_input_coercion(self, directive_args, next_directive, parent_node, value, ctx):
+        v = await next_directive(parent_node, value, ctx)
+        tag = ctx.get("tag") if isinstance(ctx, dict) else None
+        return "%s@%s" % (v, tag) if isinstance(v, str) else v
+
+    async def on_argument_execution(self, directive_args, next_directive, parent_node, argument_definition_node, argument_node, value, ctx):
+        v = await next_directive(parent_node, argument_definition_node, argument_node, value, ctx)
+        tag = ctx.get("tag") if isinstance(ctx, dict) else None
+        return "%s@%s" % (v, tag) if isinstance(v, str) else v
+
+
 class NoOpDirective:
     """Implementation without hooks for directives that are only declared/applied."""
 
@@ -157,8 +172,10 @@ class Bundle:
             Directive("vtgate", schema_name=sn)(GateDirective())
         if "vtrec" in s.directives:
             Directive("vtrec", schema_name=sn)(RecDirective())
+        if "vtctx" in s.directives:
+            Directive("vtctx", schema_name=sn)(CtxDirective())
         for d in s.directives.values():
-            if d.name not in ("vtgate", "vtrec") and getattr(d, "impl", "noop") == "noop":
+            if d.name not in ("vtgate", "vtrec", "vtctx") and getattr(d, "impl", "noop") == "noop":
                 Directive(d.name, schema_name=sn)(NoOpDirective())
         for t in s.types.values():
             if t.kind == "SCALAR":
